@@ -316,6 +316,39 @@ impl Engine {
         })
     }
 
+    /// An engine without a library object: path resolution and expectations only.
+    pub fn model_only(model: Model, pool: Vec<String>) -> Engine {
+        let io = Io::new();
+        Engine {
+            cfb: None,
+            io,
+            model,
+            handles: (0..4).map(|_| None).collect(),
+            version: 3,
+            max_buf: None,
+            pool,
+            oracles: Oracles::default(),
+            stats: Stats::default(),
+            trace: Vec::new(),
+            op_index: 0,
+            clean_boundaries: 0,
+            succ_ops: 0,
+            last_header: Vec::new(),
+            tables_changed: false,
+            replaced_after_change: false,
+            succ_mutations: 0,
+            pending_refusal: false,
+            freed: false,
+            ctl: None,
+            ever_nonzero: Vec::new(),
+            ev_pred_removed: false,
+            ev_removed_any: false,
+            ev_slot_reused: false,
+            own_writes: vec![Vec::new(); 4],
+            writebacks: 0,
+        }
+    }
+
     fn create_lib(io: Io, version: u8, max_buf: Option<u32>) -> std::io::Result<Cfb> {
         // create_with_version uses the default buffer size; a non-default size is applied by
         // creating and then reopening with OpenOptions (the only public way for V3).
